@@ -11,6 +11,7 @@ import json
 import symtable
 
 import core
+import m2corr
 import pylite
 import progrun
 import pyprog
@@ -48,6 +49,7 @@ def wrap_closure(fn_src, free):
 def run(chk):
     import ptera
     from ptera.selector import SelectorError
+    m2corr.ast_leg(chk, 150 if chk.tier == "quick" else 3000)
     rng = chk.rng
     chk.cov["rule"] = (
         "generated functions (C01's program space, bindings in every syntactic position incl. except / with / "
